@@ -229,4 +229,19 @@ theorem ListEqv.findNone {α} {R : α → α → Prop} {name : α → String} (h
 theorem OptRel.isNone_eq {α β} {R : α → β → Prop} {x : Option α} {y : Option β} (h : OptRel R x y) : x.isNone = y.isNone := by
   cases x <;> cases y <;> simp_all [OptRel]
 
+/-- pairwise distinct names: every element is the first one carrying its name -/
+theorem nodup_uniq {α} {name : α → String} {l : List α} (h : (l.map name).Nodup) : UniqN name l := by
+  induction l with
+  | nil => intro x hx; cases hx
+  | cons a l ih =>
+    simp only [List.map_cons, List.nodup_cons] at h
+    intro x hx
+    rcases List.mem_cons.mp hx with rfl | hx
+    · simp [List.find?_cons]
+    · have hne : (name a == name x) = false := by
+        have : name a ≠ name x := fun e => h.1 (e ▸ List.mem_map.mpr ⟨x, hx, rfl⟩)
+        simpa using this
+      simp only [List.find?_cons, hne]
+      exact ih h.2 x hx
+
 end PyGql.ListEqv
